@@ -23,6 +23,7 @@ func init() {
 			"(R3) every advance of `start` is followed in the same block by `start %= size`; the only other store is the constant 0 under used==0; " +
 			"(R4) ErrBufferFull is returned only under used==size and io.EOF (from the buffer itself) only under used==0; " +
 			"(R5) windows: writers fill storage[(start+used)%size : min(that+(size-used), size)], readers drain storage[start : min(start+used, size)]; byte operations index (start+used)%size and start. " +
+			"(R6) inside a loop that changes used/start, no bound is computed from a value of used/start that was read before the loop (a hoisted free-space count is stale after the first partial read and lets a later segment run into unread data); " +
 			"Not decided: equivalence with a queue model over operation sequences.",
 		Assumptions: []string{"copy returns the number of bytes copied; io.Reader/io.Writer counts are within the slice length"},
 		Run:         runC26,
@@ -30,6 +31,7 @@ func init() {
 }
 
 func runC26(c *eng.Ctx) {
+	c26FreshOccupancy(c)
 	fns := c.P.ModuleFuncs(ringPkg)
 	isFieldLoad := func(v ssa.Value, field string) bool {
 		u, ok := v.(*ssa.UnOp)
